@@ -179,6 +179,127 @@ func genInterpCase(id int, rng *RNG, prof *Profile) *interpCase {
 		vc.Meta["inc:"+key] = src
 		return key, true
 	}
+	if nh := len(g.data.User.History); prof.CondHist && g.data.User.Present && g.data.User.HasFinance && nh >= 2 && rng.Chance(15) {
+		// conditions whose right-hand side is an element addressed through the loop variable
+		iv := g.newVar("i")
+		loop := &Ast{K: "cloop", Var: iv, Init: "0", InitLit: true, Op: "<", Lim: fmt.Sprint(nh), LimLit: true, Step: "++", Body: []*Ast{{K: "print", Path: iv}}}
+		for k := 0; k < 2; k++ {
+			fld := []string{"DateUnix", "Cost", "Comment"}[rng.Intn(3)]
+			left := fmt.Sprintf("user.Finance.History.%d.%s", rng.Intn(nh), fld)
+			op := cmpOps[rng.Intn(6)]
+			if fld == "Comment" {
+				op = cmpOps[rng.Intn(2)]
+				if rng.Bool() {
+					left = "user.Name"
+				}
+			}
+			c := &ACond{L: left, Op: op, R: fmt.Sprintf("user.Finance.History[%s].%s", iv, fld), FloatL: fld == "Cost"}
+			loop.Body = append(loop.Body, &Ast{K: "if", Cond: c, Then: []*Ast{{K: "text", Text: g.marker()}}, HasElse: true, Else: []*Ast{{K: "text", Text: g.marker()}}})
+		}
+		ic.ast = append(ic.ast, loop, &Ast{K: "text", Text: g.marker()})
+		if g.budget < 6 {
+			g.budget = 6
+		}
+		g.tag("scenario:condition-against-indexed-element")
+	}
+	if g.longPath != "" && rng.Chance(75) {
+		// the long value printed: plainly, through an escape letter or modifier, and inside a bound
+		// tag with prefix and suffix (first thing in the template as often as not)
+		var items []*Ast
+		pr := func() *Ast {
+			a := &Ast{K: "print", Path: g.longPath}
+			if prof.PfxSfx && rng.Chance(60) {
+				a.Pfx, a.PfxKw = []string{"<p class=x>", "key=", "<b>"}[rng.Intn(3)], []string{"prefix", "pfx"}[rng.Intn(2)]
+				if rng.Bool() {
+					a.Sfx, a.SfxKw = []string{"</p>", "&end", "</b>"}[rng.Intn(3)], []string{"suffix", "sfx"}[rng.Intn(2)]
+				}
+			}
+			return a
+		}
+		if prof.Letters && rng.Chance(60) {
+			a := pr()
+			a.Letters = []string{"u", "h", "j", "q", "l", "a", "uu", "J", "c"}[rng.Intn(9)]
+			items = append(items, a, &Ast{K: "text", Text: g.marker()})
+		} else if prof.Mods && rng.Chance(60) {
+			a := pr()
+			a.Mods = []AMod{{Name: []string{"urlEncode", "htmlEscape", "jsonEscape", "jsonQuote", "linkEscape", "attrEscape"}[rng.Intn(6)]}}
+			items = append(items, a, &Ast{K: "text", Text: g.marker()})
+		}
+		if prof.Regions || (prof.Letters && prof.PfxSfx) {
+			kind := prof.RegionKind
+			if kind == "" || rng.Chance(20) {
+				kind = []string{"jsonquote", "htmlescape", "urlencode"}[rng.Intn(3)]
+			}
+			in := pr()
+			if prof.Letters && rng.Chance(50) {
+				in.Letters = []string{"u", "h", "l", "j"}[rng.Intn(4)]
+			}
+			reg := []*Ast{{K: "region", Region: kind, Body: []*Ast{in}}, {K: "text", Text: g.marker()}}
+			if rng.Bool() {
+				items = append(reg, items...) // the bound tag first: nothing has gone through the scratch yet
+			} else {
+				items = append(items, reg...)
+			}
+		}
+		if len(items) == 0 {
+			items = append(items, pr())
+		}
+		if rng.Bool() {
+			ic.ast = append(items, ic.ast...)
+		} else {
+			ic.ast = append(ic.ast, items...)
+		}
+		g.tag("scenario:long-value-printed")
+	}
+	if len(g.data.User.History) >= 256 && g.data.User.Present && g.data.User.HasFinance {
+		// every element of a large collection once, separators between, else only when empty
+		kv, vv := g.newVar("k"), g.newVar("v")
+		ic.ast = append(ic.ast, &Ast{K: "text", Text: []byte("[")}, &Ast{K: "rloop", Key: kv, Var: vv, Src: "user.Finance.History", Sep: ",", SepKw: "separator",
+			Body: []*Ast{{K: "print", Path: kv}}, HasElse: true, Else: []*Ast{{K: "text", Text: []byte("EMPTY")}}}, &Ast{K: "text", Text: []byte("]")})
+		g.tag("scenario:large-collection-loop")
+	}
+	if prof.W["ctx"] > 0 && rng.Chance(10) {
+		// one variable assigned a short text and then ever longer ones (beyond any doubling)
+		name := fmt.Sprintf("c%d", rng.Intn(3))
+		first := &Ast{K: "ctx", CtxVar: name, CtxLit: true, CtxSrc: []string{"ab", "x", "7"}[rng.Intn(3)], CtxQuote: `"`}
+		if rng.Chance(30) {
+			first = &Ast{K: "counter", Var: name, CntOp: "=", CntArg: 5}
+		}
+		items := []*Ast{first, {K: "print", Path: name}}
+		for _, n := range [][]int{{20, 200}, {70}, {90, 500}, {40, 130, 1200}}[rng.Intn(4)] {
+			v := fmt.Sprintf("g%d", len(g.data.Statics))
+			g.data.Statics = append(g.data.Statics, StaticVar{Name: v, Kind: []string{"string", "bytes"}[rng.Intn(2)], Ptr: rng.Bool(), S: longText(n)})
+			items = append(items, &Ast{K: "ctx", CtxVar: name, CtxSrc: v}, &Ast{K: "text", Text: g.marker()}, &Ast{K: "print", Path: name},
+				&Ast{K: "if", Cond: &ACond{L: name, Op: "==", R: v}, Then: []*Ast{{K: "text", Text: g.marker()}}, HasElse: true, Else: []*Ast{{K: "text", Text: g.marker()}}})
+		}
+		ic.ast = append(ic.ast, items...)
+		g.tag("scenario:variable-reassigned-longer")
+	}
+	if prof.W["exit"] > 0 && rng.Chance(12) {
+		// exit behind a lazybreak (or a continue-less break form) in one block of a loop body:
+		// the template stops at the exit, whatever the loop had pending
+		iv := g.newVar("i")
+		ctl := &Ast{K: "lazybreak"}
+		if rng.Chance(30) {
+			ctl.N = 1 + rng.Intn(2)
+		}
+		blk := &Ast{K: "if", Cond: &ACond{L: iv, Op: "==", R: fmt.Sprint(rng.Intn(2)), RLit: true}, Then: []*Ast{ctl, {K: "text", Text: g.marker()}, {K: "exit"}, {K: "text", Text: g.marker()}}}
+		if rng.Chance(30) {
+			blk = &Ast{K: "if", Cond: &ACond{L: iv, Op: "!=", R: fmt.Sprint(rng.Intn(2)), RLit: true}, Then: []*Ast{{K: "text", Text: g.marker()}}, HasElse: true, Else: blk.Then}
+		}
+		loop := &Ast{K: "cloop", Var: iv, Init: "0", InitLit: true, Op: "<", Lim: "4", LimLit: true, Step: "++", Body: []*Ast{{K: "print", Path: iv}, blk, {K: "text", Text: g.marker()}}}
+		items := []*Ast{loop, {K: "text", Text: g.marker()}}
+		if prof.Includes && rng.Bool() {
+			if key, ok := addSub(items); ok {
+				items = []*Ast{{K: "text", Text: g.marker()}, {K: "include", IncKw: "include", Names: []string{key}}, {K: "text", Text: g.marker()}}
+			}
+		}
+		ic.ast = append(ic.ast, items...)
+		if g.budget < 8 {
+			g.budget = 8
+		}
+		g.tag("scenario:exit-behind-lazybreak")
+	}
 	if prof.Includes && prof.BreakN && rng.Chance(20) {
 		// an include rendered while a break depth is pending for the enclosing loops: after
 		// break N in an inner loop (the rest of the outer body is rendered), or after lazybreak N
